@@ -128,8 +128,8 @@ namespace
     template <class C> void storage_set(C& c, size_t i, int which, T a, T b) { if (which == 0) c.real()[i] = a; else c.imag()[i] = b; }
     Elem fresh_elem() { return Elem(T(), T()); }                   // default construction / resize(s): zero
     Elem elem_of(T a, T b, bool) { return Elem(a, b); }
-    const char* const write_forms[] = {"assign_scalar", "real_ref", "imag_ref", "plus_assign_scalar"};
-    constexpr unsigned n_write_forms = 4;
+    const char* const write_forms[] = {"assign_scalar", "real_ref", "imag_ref", "plus_assign_scalar", "assign_own_imag", "assign_own_real"};
+    constexpr unsigned n_write_forms = 6;
     template <class R> void write_ref(R&& r, unsigned form, T a, T b, bool, Elem& m)
     {
         switch (form)
@@ -137,6 +137,9 @@ namespace
         case 0: r = a; m = Elem(a, T()); break;
         case 1: r.real() = a; m.first = a; break;
         case 2: r.imag() = b; m.second = b; break;
+        // the assigned scalar is (a reference to) one of the element's own parts: z = z.imag() is (im, 0), z = z.real() is (re, 0)
+        case 4: r = r.imag(); m = Elem(m.second, T()); break;
+        case 5: r = r.real(); m = Elem(m.first, T()); break;
         default: r += a; m.first = static_cast<T>(m.first + a); break;
         }
     }
@@ -311,6 +314,41 @@ namespace
             check_one(0); check_one(1);
             for (int i = 0; i < 2; ++i) elements_live(slot[i].get(), std::integral_constant<bool, throwing_elements>());
         }
+        // value_or() on the temporary proxies the element accessors hand out is a read: it returns the element's value (or the
+        // default for a missing element) and leaves the element as it was - in particular not moved-from
+#if SQ_FAMILY == 0
+        void read_value_or(const Step& st)
+        {
+            int t = st.actor % 2;
+            C& c = slot[t].get();
+            if (c.size() == 0) return;
+            size_t i = static_cast<size_t>(st.a % c.size());
+            const Elem want = model[t][i];
+            T dflt = val(st.b);
+            for (int form = 0; form < 6; ++form)
+            {
+                T got = T();
+                bool ok = xcall([&] {
+                    switch (form)
+                    {
+                    case 0: got = c[i].value_or(dflt); break;
+                    case 1: got = c.at(i).value_or(dflt); break;
+                    case 2: got = (*(c.begin() + static_cast<std::ptrdiff_t>(i))).value_or(dflt); break;
+                    case 3: got = c.begin()[static_cast<std::ptrdiff_t>(i)].value_or(dflt); break;
+                    case 4: got = (i == 0 ? c.front() : c[i]).value_or(dflt); break;
+                    default: got = (i + 1 == c.size() ? c.back() : c[i]).value_or(dflt); break;
+                    }
+                });
+                if (!ok) continue;       // the copy into the result threw (injected): nothing to compare, the element is checked below
+                T expect = want.second ? want.first : dflt;
+                if (!(got == expect)) viol("model", "value_or", "value_or() on the proxy of element " + std::to_string(i) + " (form " + std::to_string(form) + ") returned another value");
+                if (moved_from(c.value()[i])) viol("model", "value_or", "value_or() on a temporary element proxy (form " + std::to_string(form) + ") moved the element's value out of the container");
+            }
+            SIM_PROBE("value_or_on_temporary_element_proxies");
+        }
+#else
+        void read_value_or(const Step&) {}
+#endif
         // every element of the value storage is a live object constructed where it is (leaks are caught at teardown, when
         // the models are gone and nothing may be left alive)
         void elements_live(const C&, std::false_type) {}
@@ -644,7 +682,7 @@ namespace
             case OP_move_assign: op_assign(st, true); break;
             case OP_compare: op_compare(st); break;
             case OP_at: op_at(st); break;
-            case OP_read_paths: { Scope sc(*this, st, "read_paths", "all", st.actor % 2); check_all(); } break;
+            case OP_read_paths: { Scope sc(*this, st, "read_paths", "all", st.actor % 2); read_value_or(st); check_all(); } break;
             default: { StepScope sc(run, st, "noop"); } break;
             }
         }
